@@ -50,7 +50,7 @@ LEVEL_TEXT = ("Theorems for all chains of scopes, all names and all expressions,
               "(class body CPython skips; expression-local binder), refuted by computed witnesses replayed on the code. `global` declarations: the "
               "walk gives the module binding unless a lower scope answers. Binding statements: for every statement list (no bind-once restriction, "
               "last binding wins) the visitor's member table and CPython's final namespace give each name the same path, except imports of the "
-              "scope's own member. Resolution is total and justified; unknown names unchanged; relative_to_absolute = importlib._resolve_name; "
+              "scope's own member. Stubs: a name written in a .pyi resolves as in the module whose text is the stubs text, from the stubs module and from the merged module alike, modulo two decidable predicates (C04-F7 exact). Resolution is total and justified; unknown names unchanged; relative_to_absolute = importlib._resolve_name; "
               "import statements bind as CPython; dotted chains canonicalise segment by segment. Model tied to the code by a source-reading "
               "translator, two independent abstractions (live tree, source text) that must coincide, and differential runs against Griffe and "
               "against CPython (execution probes, compiler instructions, final namespaces).")
@@ -62,10 +62,10 @@ LEVEL_NOTE = ("Trusted: Coq kernel, extraction, the two abstractions (live objec
               "members for Griffe, by design: test_name_resolution), walrus targets, `nonlocal` beyond the spec side, star imports (C05), "
               "inherited members in attribute chains (C07), alias resolution of the returned first-link path (C06; the direct check lets CPython "
               "evaluate the path). While /repo lacks the three fix commits the check runs the as-is form of the model and lists F1/F3/F4 as "
-              "known; on the fix clone it runs the repaired form and their witnesses must give CPython's answers. All 32 theorems are closed "
+              "known; on the fix clone it runs the repaired form and their witnesses must give CPython's answers. Stub-merged trees: the scope rule is a theorem over a names-level model of the merge (C04_stub_scope_kept/_moved) evaluated by the extracted model on every identifier of the stub stream; the merge of whole objects is C19's. All 37 theorems are closed "
               "under the global context.")
-MODEL = ("Model.C04_expr", "run_C04e")
-COQ_TARGETS = ["Proofs/C04_scope.vo", "Proofs/C04_expr.vo"]
+MODEL = ("Model.C04_stubs", "run_C04s")
+COQ_TARGETS = ["Proofs/C04_scope.vo", "Proofs/C04_expr.vo", "Proofs/C04_stubs.vo"]
 TRANSLATOR_NAME = "harness/translate/c04_variant.py (which form of Object.resolve / the expression builders the tree has)"
 _VARIANT = {"v": [True, True, True], "read": False}
 
@@ -1282,6 +1282,47 @@ def check_stub_variant(ctx, g, files, info, d):
         xlive(e, occ)
         return [[n.name, n.canonical_path] for n in occ]
 
+    # member tables of the two texts (model fold over their binding statements), without the submodules the loader attaches
+    class _G:
+        all_mods = [m for m in g.all_mods if m.dotted in dropped]
+        submodule_names = staticmethod(g.submodule_names)
+    py_scopes = src_scopes(_G, {m.relfile: vfiles[m.relfile] for m in _G.all_mods})
+    tabs = {}
+    qs = []
+    for m in _G.all_mods:
+        for sc in (py_scopes[m.dotted], info["scopes"][m.dotted]):
+            nsub = len(g.submodule_names(m))
+            st = sc["stmts"][:len(sc["stmts"]) - nsub] if nsub else sc["stmts"]
+            qs.append(["stmts", m.comps, m.is_init, m.dotted, st])
+    outs = ctx.model(qs)
+    for k, m in enumerate(_G.all_mods):
+        tabs[m.dotted] = (outs[2 * k][0], outs[2 * k + 1][0], sorted(g.submodule_names(m)))
+    squeries, smeta, todo = [], [], []
+
+    def model_queries(m, me, re_, robj, stub_only):
+        """One query per identifier whose scope chain reaches the module: where does the chain end (stubs module / merged module)."""
+        mocc, rocc = [], []
+        xlive(me, mocc)
+        xlive(re_, rocc)
+        if len(mocc) != len(rocc):
+            return
+        concrete = mcoll[m.dotted]
+        for a, b in zip(mocc, rocc):
+            o = a.parent
+            if o is None or isinstance(o, (str, griffe.ExprName)):
+                continue
+            chain = abstract_chain(o)
+            top = o
+            k = 0
+            while not top.is_module:
+                top, k = top.parent, k + 1
+            if top.path != m.dotted:
+                continue
+            moved = top is concrete
+            C, S, subs = tabs[m.dotted]
+            squeries.append(["stub", V(), chain[:k], [chain[k][0], chain[k][1], [], []], chain[k + 1:], subs, C, S, a.name, moved])
+            smeta.append((m, a, b, robj, stub_only, moved))
+
     for m in g.all_mods:
         if m.dotted not in dropped:
             continue
@@ -1312,25 +1353,47 @@ def check_stub_variant(ctx, g, files, info, d):
             for re_, me in pairs:
                 if re_ is None or me is None or isinstance(re_, str) or isinstance(me, str):
                     continue
-                want, got = idents(re_), idents(me)
-                ctx.case({"root": g.root, "stub": robj.path, "expr": str(re_), "src": files_digest(vfiles)}, any(a != b for a, b in want))
-                ctx.observe("stub_object", ("stub-only:" if stub_only else "both:") + k)
-                if want != got:
-                    # C04-F7: a submodule that __init__.pyi imports from its own package is unknown to the stubs module
-                    subs = g.submodule_names(m)
-                    st = info["scopes"][m.dotted]["stmts"]
-                    diff = [(a, b) for a, b in zip(want, got) if a != b]
-                    f7 = (m.is_init and len(want) == len(got) and diff and all(
-                        a[0] == b[0] and a[0] in subs and b[1] == a[0] and a[1] == m.dotted + "." + a[0]
-                        and any(x[0] == "from" and _binds(x) == a[0] for x in st) and not any(x[0] == "import" and _binds(x) == a[0] for x in st)
-                        for a, b in diff))
-                    ctx.observe("stub_mismatch", "C04-F7" if f7 else "differs")
-                    ctx.property_failure({**case, "object": robj.path, "stub_only": stub_only},
-                                         {"expression": str(re_), "griffe_on_stub_merged_tree": got,
-                                          "reference (module text = stub text, compared with CPython above)": want},
-                                         finding="C04-F7" if f7 else None)
-                else:
-                    ctx.observe("stub_mismatch", "none")
+                model_queries(m, me, re_, robj, stub_only)
+                todo.append((m, robj, stub_only, k, re_, me))
+    # ---- the model: stubs scope / merged scope / reference scope of every identifier whose chain reaches the stubbed module
+    souts = ctx.model(squeries)
+    if len(getattr(ctx, "_xq", [])) < 100:
+        ctx._xq = getattr(ctx, "_xq", []) + squeries[:4]
+    explained = {}          # id(ExprName of the merged tree) -> the model's F7 verdict
+    checked_members = set()
+    for q, (m, a, b, robj, stub_only, moved), (m_got, m_ref, gap, merged_ms) in zip(squeries, smeta, souts):
+        ctx.observe("stub_scope", ("merged-module" if moved else "stubs-module") + (":gap" if gap else ""))
+        if m_got != a.canonical_path:
+            ctx.tie_failure("correspondence", "stub scope (model: stub_frame / merged_frame + walk) vs ExprName.canonical_path on the stub-merged tree",
+                            {"model": m_got, "impl": a.canonical_path, "name": a.name, "object": robj.path, "moved": moved}, case)
+        if m_ref != b.canonical_path:
+            ctx.tie_failure("oracle", "reference scope (model: reference_frame + walk) vs ExprName.canonical_path on the reference tree",
+                            {"model": m_ref, "reference": b.canonical_path, "name": a.name, "object": robj.path}, case)
+        if gap == 0 and m_got != m_ref:
+            ctx.tie_failure("proof", "C04_stub_scope_kept / C04_stub_scope_moved contradicted by the extracted model", {"query": q}, case)
+        explained[id(a)] = (gap == 1 and not moved and m_got == a.canonical_path and m_ref == b.canonical_path)
+        if m.dotted not in checked_members:
+            checked_members.add(m.dotted)
+            live = sorted([k2, [x.target_path] if x.is_alias else []] for k2, x in mcoll[m.dotted].members.items())
+            if sorted(merged_ms) != live:
+                ctx.tie_failure("correspondence", "merged_frame (model: attach subs (merge_ms C S)) vs the members of the stub-merged module",
+                                {"module": m.dotted, "model": sorted(merged_ms), "impl": live}, case)
+    for m, robj, stub_only, k, re_, me in todo:
+        want, got = idents(re_), idents(me)
+        ctx.case({"root": g.root, "stub": robj.path, "expr": str(re_), "src": files_digest(vfiles)}, any(a != b for a, b in want))
+        ctx.observe("stub_object", ("stub-only:" if stub_only else "both:") + k)
+        if want != got:
+            # C04-F7 only by the model's verdict (gap_stub_kept) on every differing identifier, the model reproducing both trees
+            mocc = []
+            xlive(me, mocc)
+            f7 = len(want) == len(got) == len(mocc) and all(explained.get(id(nm), False) for nm, x, y in zip(mocc, want, got) if x != y)
+            ctx.observe("stub_mismatch", "C04-F7" if f7 else "differs")
+            ctx.property_failure({**case, "object": robj.path, "stub_only": stub_only},
+                                 {"expression": str(re_), "griffe_on_stub_merged_tree": got,
+                                  "reference (module text = stub text, compared with CPython above)": want},
+                                 finding="C04-F7" if f7 else None)
+        else:
+            ctx.observe("stub_mismatch", "none")
 
 
 def griffe_side(ctx, g, d, files):
